@@ -408,7 +408,7 @@ func historyCases(run *lib.Run, rng *lib.Rng, st *lib.Stats, id *int) {
 				})
 				st.Hist["history-selftest:"+sc.name]++
 				if blind {
-					st.Fail("selftest:history-differ-blind", "skipping block "+desc[last]+" after a restore went unnoticed by the state comparison", map[string]interface{}{"scenario": sc.name, "blocks": desc})
+					failOnce(st, "selftest:history-differ-blind", "skipping block "+desc[last]+" after a restore went unnoticed by the state comparison", map[string]interface{}{"scenario": sc.name, "blocks": desc})
 				}
 			}
 			// Snapshot() must be a deep copy (the manager writes it to disk
@@ -434,7 +434,7 @@ func historyCases(run *lib.Run, rng *lib.Rng, st *lib.Stats, id *int) {
 				})
 				st.Hist["history-snapshot-deep:"+sc.name]++
 				if len(diffs) > 0 {
-					st.Fail("snapshot-alias:"+sites[0], "a checkpoint Snapshot() changed after it was taken (it shares memory with the live state): "+diffs[0],
+					failOnce(st, "snapshot-alias:"+sites[0], "a checkpoint Snapshot() changed after it was taken (it shares memory with the live state): "+diffs[0],
 						map[string]interface{}{"scenario": sc.name, "seed": run.Seed, "history": hi, "snapshot_after_block": i, "blocks": desc})
 					break
 				}
@@ -465,7 +465,7 @@ func historyCases(run *lib.Run, rng *lib.Rng, st *lib.Stats, id *int) {
 				input := map[string]interface{}{"scenario": sc.name, "seed": run.Seed, "history": hi, "restore_after_block": cut,
 					"height": blocks[cut].Height, "blocks": desc}
 				if outcome != "ok" {
-					st.Fail("history:"+sc.name+":"+strings.SplitN(outcome, ":", 2)[0], "restore-then-continue failed: "+outcome, input)
+					failOnce(st, "history:"+sc.name+":"+strings.SplitN(outcome, ":", 2)[0], "restore-then-continue failed: "+outcome, input)
 					continue
 				}
 				seen := map[string]bool{}
@@ -476,7 +476,7 @@ func historyCases(run *lib.Run, rng *lib.Rng, st *lib.Stats, id *int) {
 					}
 					seen[sig] = true
 					input["diff"] = dline
-					st.Fail(sig, "a node restored from the checkpoint and fed the remaining blocks differs from the node that never restarted: "+dline, input)
+					failOnce(st, sig, "a node restored from the checkpoint and fed the remaining blocks differs from the node that never restarted: "+dline, input)
 				}
 			}
 			if hi == 0 {
@@ -551,7 +551,7 @@ func liveRoundTrip(run *lib.Run, rng *lib.Rng, st *lib.Stats, id *int) {
 			st.LogCase(run.Out, *id, map[string]interface{}{"target": "live-roundtrip:" + k.name, "index": i, "mode": mode, "outcome": outcome, "diffs": diffs})
 			input := map[string]interface{}{"target": k.target, "seed": run.Seed, "index": i, "mode": mode}
 			if outcome != "ok" {
-				st.Fail("live-roundtrip:"+k.name+":"+strings.SplitN(outcome, ":", 2)[0], "checkpoint -> live object -> checkpoint failed: "+outcome, input)
+				failOnce(st, "live-roundtrip:"+k.name+":"+strings.SplitN(outcome, ":", 2)[0], "checkpoint -> live object -> checkpoint failed: "+outcome, input)
 				continue
 			}
 			seen := map[string]bool{}
@@ -559,7 +559,7 @@ func liveRoundTrip(run *lib.Run, rng *lib.Rng, st *lib.Stats, id *int) {
 				sig := "live-roundtrip:" + sites[j]
 				if !seen[sig] {
 					seen[sig] = true
-					st.Fail(sig, "field lost between checkpoint and live object (Recover/recoverFromCheckPoints or initFrom...): "+dl, input)
+					failOnce(st, sig, "field lost between checkpoint and live object (Recover/recoverFromCheckPoints or initFrom...): "+dl, input)
 				}
 			}
 		}
